@@ -197,7 +197,10 @@ Heads ==
      RuleHead("P", <<HeadArg("a", y), HeadArg("b", At(x, "s"))>>),
      RuleHead("P", <<HeadArg("a", At(x, "ref")), HeadArg("b", At(y, "m")), HeadArg("c", LitNone)>>),
      RuleHead("R", <<HeadArg("a", x), HeadArg("b", At(y, "items"))>>),
-     RuleHead("R", <<HeadArg("b", At(x, "o")), HeadArg("a", At(y, "n"))>>) >>
+     RuleHead("R", <<HeadArg("b", At(x, "o")), HeadArg("a", At(y, "n"))>>),
+     \* a class whose instances are falsy when their first field is (an inferred instance is a value, not a truth value)
+     RuleHead("PF", <<HeadArg("a", At(x, "n")), HeadArg("b", y)>>),
+     RuleHead("PF", <<HeadArg("a", At(y, "s")), HeadArg("b", x), HeadArg("c", LitI(1))>>) >>
 
 (* ---- C18: meaning-preserving rewrites, each applied at every position it fits ----*)
 MirrorOp(op) == CASE op = "lt" -> "gt" [] op = "gt" -> "lt" [] op = "le" -> "ge" [] op = "ge" -> "le" [] OTHER -> op
